@@ -92,7 +92,7 @@ def _close(x, y, tol=1e-9, scale=1.0):
     if x.shape != y.shape:
         return np.zeros((), bool)
     with np.errstate(invalid="ignore"):
-        return (x == y) | (np.abs(x - y) <= tol * scale * (1 + np.abs(y)))
+        return (x == y) | (np.isfinite(x) & np.isfinite(y) & (np.abs(x - y) <= tol * scale * (1 + np.abs(y))))
 
 
 def run_case(case):
